@@ -259,12 +259,27 @@ func SigScripts(t *rapid.T) SigProgram {
 		embed = rapid.IntRange(0, len(slots)-1).Draw(t, "embed_slot")
 		desc += "+sig-in-lock"
 	}
-	buildLock := func(sigs map[int][]byte) []byte {
+	redeemOf := func(sigs map[int][]byte) []byte {
 		if embed < 0 {
 			return lockBody
 		}
 		l := append(Push(sigs[embed], 0), 0x75)
 		return append(l, lockBody...)
+	}
+	// P2SH (pre-genesis, BIP16 flag): the program above becomes the redeem script pushed last by
+	// the unlocking script; the script code signed is then the redeem script's
+	p2sh := !flags.Has(interp.FlagAfterGenesis) && embed < 0 && len(lockBody) <= 520 && rapid.IntRange(0, 3).Draw(t, "p2sh") == 0
+	if p2sh {
+		flags |= interp.FlagP2SH
+		desc += "+p2sh"
+	}
+	buildLock := func(sigs map[int][]byte) []byte {
+		r := redeemOf(sigs)
+		if !p2sh {
+			return r
+		}
+		l := append([]byte{0xa9, 0x14}, Hash160(r)...)
+		return append(l, 0x87)
 	}
 	var build func(sigs map[int][]byte) []byte
 	// pass 1: placeholders, learn the script code of every slot
@@ -285,8 +300,8 @@ func SigScripts(t *rapid.T) SigProgram {
 	// decorations of the unlocking script: an OP_CODESEPARATOR as its first instruction or after
 	// its first push, and (after genesis) a top-level OP_RETURN ending it. None of them may
 	// influence the locking script's script code: separator state is per script.
-	uSepFirst := rapid.IntRange(0, 7).Draw(t, "u_sep_first") == 0
-	uSepMid := rapid.IntRange(0, 11).Draw(t, "u_sep_mid") == 0
+	uSepFirst := rapid.IntRange(0, 7).Draw(t, "u_sep_first") == 0 && (!p2sh || rapid.IntRange(0, 4).Draw(t, "u_sep_p2sh") == 0)
+	uSepMid := rapid.IntRange(0, 11).Draw(t, "u_sep_mid") == 0 && !p2sh
 	uReturn := flags.Has(interp.FlagAfterGenesis) && rapid.IntRange(0, 7).Draw(t, "u_return") == 0
 	var uJunk []byte
 	if uReturn {
@@ -319,6 +334,9 @@ func SigScripts(t *rapid.T) SigProgram {
 			default:
 				u = append(u, Push(sigs[e], 0)...)
 			}
+		}
+		if p2sh {
+			u = append(u, Push(redeemOf(sigs), 0)...)
 		}
 		if uReturn {
 			u = append(u, 0x6a)
